@@ -33,8 +33,9 @@ class Files:
     def write(self, content):
         self.n += 1
         p = os.path.join(self.dir, "f%d.txt" % (self.n % 64))
-        with open(p, "w", encoding="utf-8", newline="") as f:
-            f.write(content)
+        # bytes that are not UTF-8 are carried in the text as lone surrogates U+DC80..U+DCFF (surrogateescape) and written raw
+        with open(p, "wb") as f:
+            f.write(content.encode("utf-8", "surrogateescape"))
         return p
 
 
@@ -193,6 +194,16 @@ def run(ctx):
                 if e:
                     tid += 1
                     trs.append({"tid": tid, "ev": [e], "content": base[:i] + base[i + 1:]})
+    # raw bytes that are not valid UTF-8 inside sequence lines (a Windows-1252 no-break space, Latin-1 letters, a smart quote, a
+    # truncated two-byte character, a byte-order mark of another encoding): foreign characters like any other
+    for base in ["ACDEF\n\nGHIKL\n", "  1 MKV LAA\n  7 GIV*"]:
+        for raw in ["\udca0", "\udce9", "\udc94", "\udc80", "\udcc3", "\udcff\udcfe", "\udcc3\udc28"][:ctx.pick(4, 7)]:
+            for i in range(0, len(base) + 1, ctx.pick(2, 1)):
+                content = base[:i] + raw + base[i:]
+                e = parse_event(ctx, lc, files, content)
+                if e:
+                    tid += 1
+                    trs.append({"tid": tid, "ev": [e], "content": content})
     tab = inputs.tables([t["content"] for t in trs])
     # the parser strips with str.strip(): whitespace = isspace
     for t in trs:
